@@ -297,3 +297,36 @@ func vfTimeOf(v reflect.Value) time.Time {
 	_ = c
 	return t
 }
+func vfIntArith() {}
+
+func vfAnd(a, b bool) bool     { return a && b }
+func vfOr(a, b bool) bool      { return a || b }
+func vfImplies(a, b bool) bool { return !a || b }
+func vfIteU64(c bool, x, y uint64) uint64 {
+	if c {
+		return x
+	}
+	return y
+}
+func vfIteI64(c bool, x, y int64) int64 {
+	if c {
+		return x
+	}
+	return y
+}
+
+// vfDigit returns a symbolic ASCII digit.
+func vfDigit() byte {
+	c := vfByte()
+	vfAssume(c >= '0')
+	vfAssume(c <= '9')
+	return c
+}
+
+// vfASCII returns a symbolic byte in 0x01..0x7f.
+func vfASCII() byte {
+	c := vfByte()
+	vfAssume(c >= 1)
+	vfAssume(c < 0x80)
+	return c
+}
